@@ -270,8 +270,13 @@ def scenario(seed, idx, nmax, pfault, workroot):
             init = {"b": 0}
             si = n0.get_storage_index()
             REC.decoder = g.make_nodemaker().create_from_cap(cap)
+        rocap = n0.get_readonly_uri()
         del n0
-        getnode = lambda: g.nodemaker.create_from_cap(cap)
+        # the same capability reaches create_from_cap over two routes in a real client: directly by cap string
+        # (create_node_from_uri) and as (rw_uri, ro_uri) while unpacking the parent directory; both must
+        # give the one node object (and the one serializer) of that capability
+        routes = [lambda: g.nodemaker.create_from_cap(cap), lambda: g.nodemaker.create_from_cap(cap, rocap)]
+        getnode = lambda: rng.choice(routes)()
         calls = gen_calls(rng, kind, rng.randint(2, nmax))
         REC.planner = make_planner(rng, pfault)
         g.policy = fault_policy(rng, si)
